@@ -74,8 +74,13 @@ def judge(what, exp, rt, fnd, stats, ex):
         fnd.add("rebuild-error", str(rt.get("error"))[:120], ex("the rebuilder returned an error"))
         return
     n_exp = gc.norm20(exp)
-    if gc.norm20(rt["t0"]) != n_exp:
-        stats["first_parse_differs"] += 1     # C16's business; the oracle for the round trip stays the specification's tree
+    n_t0 = gc.norm20(rt["t0"])
+    if n_t0 != n_exp:
+        # The first parse is not the module's own tree: a defect of the PARSER, which C16 reports (kind alpha-tree; e.g. an array
+        # length of 2^64 parsed as 0).  The property speaks of `an error-free parsed module`: the round trip of that module is
+        # judged against its first parse, or a parser defect would be reported here as a defect of the rebuilder.
+        stats["first_parse_differs"] += 1
+        n_exp = n_t0
     if o == "rejected1":
         for sig in unparsable_signatures(rt.get("text1"), rt.get("codes")) or ["codes %s: %s" % (rt.get("codes"), what)]:
             fnd.add("rebuild-unparsable", sig, ex("the rebuilt text does not parse"))
@@ -83,7 +88,7 @@ def judge(what, exp, rt, fnd, stats, ex):
         return
     t1 = rt["t0"] if rt["t1"] == "=t0" else rt["t1"]
     if gc.norm20(t1) != n_exp:
-        fnd.add("rebuild-tree", gc.diff_signature(n_exp, gc.norm20(t1)), ex("parsing the rebuilt text gives a different tree"))
+        fnd.add("rebuild-tree", gc.tree_diff_key(n_exp, gc.norm20(t1)), ex("parsing the rebuilt text gives a different tree"))
     else:
         stats["tree_preserved"] += 1
     if rt.get("stable") is not True:
@@ -114,7 +119,7 @@ def run(rep, tier, seed, selftest):
             else:
                 out.write(json.dumps(c, separators=(",", ":")) + "\n")
                 judged += 1
-    common.pvh(["roundtrip", cases_path, obs_path, seed], exe_name=gc.EXE, env=gc.PVH_ENV)
+    killers = gc.pvh_cases("roundtrip", cases_path, obs_path, [seed])
     rnd = random.Random(seed)
     sample_ids = set(rnd.sample(range(judged), min(4, judged)))
     samples = []
@@ -134,9 +139,9 @@ def run(rep, tier, seed, selftest):
             if rt["id"] != case["id"]:
                 raise common.ToolError("roundtrip output out of order")
             before = stats["tree_preserved"]
-            judge(gc.canon(case), case["tree"], rt, fnd, stats,
-                  lambda msg, case=case, rt=rt: {"case": {"id": case["id"], "focus": case["focus"], "toks": case["toks"], "tree": case["tree"]},
-                                                 "source_tokens": gc.canon(case), "message": msg,
+            judge(gc.shape_key(case), case["tree"], rt, fnd, stats,
+                  lambda msg, case=case, rt=rt: {"case": {"id": case["id"], "focus": case["focus"], "cell": case.get("cell"), "toks": case["toks"], "tree": case["tree"]},
+                                                 "source_tokens": gc.canon(case)[:4000], "message": msg,
                                                  "observed": {k: v for k, v in rt.items() if k != "t0"}})
             grammar_reps.measure(case, reps)
             ck = gc.node_kinds(case["tree"])
@@ -163,6 +168,9 @@ def run(rep, tier, seed, selftest):
         raise common.ToolError("vacuity: no derived string/char literal contains the bytes %s" % sorted(need - derived_bytes))
     log("[replay] %d derived modules (without builtin calls) parsed, rebuilt, parsed, rebuilt: %d trees preserved, %d stable, %d rebuilt texts do not parse" %
         (judged, stats["tree_preserved"], stats["stable"], stats["unparsable"]))
+    if stats["first_parse_differs"]:
+        rep.note_drift("%d derived modules are parsed by the first generation into a tree that is not their own (reported by C16 as alpha-tree); "
+                       "their round trip was judged against the first parse" % stats["first_parse_differs"])
     # ---- corpus ---------------------------------------------------------------------------------------
     corpus = gc.run_corpus("C20")
     cstats = {"files": len(corpus), "with_builtin_calls": 0, "rejected_by_parser": 0, "judged": 0}
@@ -217,6 +225,7 @@ def run(rep, tier, seed, selftest):
         "exhaustive": True,
         "modules_derived": d["count"],
         "modules_with_builtin_calls_excluded": skipped_builtin,
+        "modules_that_killed_the_harness_process": len(killers),
         "trees_preserved": stats["tree_preserved"],
         "second_rebuild_identical": stats["stable"],
         "rebuilt_text_does_not_parse": stats["unparsable"],
